@@ -158,7 +158,7 @@ def r_edit(prog, tier):
                               'higher one shifts the token inserted earlier' % (raw[0].ast.target.id, unparse(raw[0].ast.iter)[:60]),
                               construct='ins-order', line=raw[0].lineno))
                 continue
-            raise Unrecognised('%s: loop over the requested indices not found' % f.fq)
+            raise Unrecognised('%s: loop over the requested indices not found' % f.fq, partial=obs)
         X = loops[0].ast.target.id
         # locals that hold the sentence length, measured afresh in every iteration of the request loop
         for nm2 in sorted(f.locals):
@@ -183,7 +183,7 @@ def r_edit(prog, tier):
                     if n not in sites:
                         sites.append(n)
         if not sites:
-            raise Unrecognised('%s: no effect inside the loop over requested indices' % f.fq)
+            raise Unrecognised('%s: no effect inside the loop over requested indices' % f.fq, partial=obs)
         # leaving the loop drops every remaining request: only justified once the (ascending) positions are beyond the end
         for n in cfg.eval_nodes():
             if n.kind == 'stmt' and isinstance(n.ast, (ast.Break, ast.Return)) and n.loops and n.loops[0] == loops[0].id \
@@ -230,7 +230,7 @@ def r_edit(prog, tier):
                 if isinstance(sub, ast.Call) and prog.callee(sub, f) == ('trees', 'delete_terminal'):
                     calls.append((n, sub))
     if not calls:
-        raise Unrecognised('punctuation_delete deletes nothing')
+        raise Unrecognised('punctuation_delete deletes nothing', partial=obs)
     for (n, sub) in calls:
         vd, why = punct_verdict(prog, f, sub.args[1], n.id, ('PUNCT',)) if len(sub.args) > 1 else (None, 'no leaf argument')
         obs.append(Ob('R-EDIT/TARGET', f.fq, 'only punctuation tokens are deleted (`%s`)' % unparse(sub), vd,
@@ -240,8 +240,12 @@ def r_edit(prog, tier):
                       construct='pd-root', line=n.lineno, nontrivial=False))
         facts = [x[0] for x in facts_at(cfg, n.id)]
         allp = any(fa[0] == 'cmp' and fa[2] == '!=' and 'len(' in fa[1] and 'len(' in fa[3] for fa in facts)
-        obs.append(Ob('R-EDIT/TARGET', f.fq, 'a sentence consisting of punctuation only is left alone', allp,
-                      'guarded by len(removal) != len(terminals)' if allp else 'every token could be deleted',
+        other = [a_ for a_ in cfg.assumes_at(n.id) if any(isinstance(c_, ast.Call) for c_ in ast.walk(a_.ast))]
+        obs.append(Ob('R-EDIT/TARGET', f.fq, 'a sentence consisting of punctuation only is left alone',
+                      True if allp else (None if other else False),
+                      'guarded by len(removal) != len(terminals)' if allp else
+                      ('guarded by `%s`, a test this rule does not model' % unparse(other[0].ast)[:60] if other else
+                       'every token could be deleted'),
                       construct='pd-all', line=n.lineno))
     # ---- filter_by_length
     f = prog.func('transform', 'filter_by_length')
@@ -464,7 +468,7 @@ def r_labelfields(prog, tier):
     ff = prog.func('trees', 'format_label')
     rets = [n for n in walk_own(pf.node) if isinstance(n, ast.Return)]
     if len(rets) != 1 or not isinstance(rets[0].value, ast.Name):
-        raise Unrecognised('parse_label does not return a single object name')
+        raise Unrecognised('parse_label does not return a single object name', partial=obs)
     ob = rets[0].value.id
     stored = {}
     for n in walk_own(pf.node):
@@ -553,11 +557,55 @@ def r_labelfields(prog, tier):
     return obs, {}
 
 
+def _regex_of(prog, f, e):
+    """The literal pattern behind a compiled-regex expression (a module constant `re.compile('...')`), or None."""
+    v = e
+    if isinstance(e, ast.Name) and e.id not in f.locals:
+        for st in f.module.tree.body:
+            if isinstance(st, ast.Assign) and len(st.targets) == 1 and isinstance(st.targets[0], ast.Name) and st.targets[0].id == e.id:
+                v = st.value
+    if isinstance(v, ast.Call) and unparse(v.func) in ('re.compile', 'compile') and v.args and isinstance(v.args[0], ast.Constant) \
+            and isinstance(v.args[0].value, str):
+        return v.args[0].value
+    return None
+
+
+def _end_anchored(pattern):
+    try:
+        import re._parser as sp
+        items = list(sp.parse(pattern))
+    except Exception:
+        return None
+    if not items:
+        return False
+    op, arg = items[-1]
+    return str(op) == 'AT' and str(arg) in ('AT_END', 'AT_END_STRING')
+
+
 def r_labelsplit(prog, tier):
     obs = []
     f = prog.func('trees', 'parse_label')
     cfg = f.cfg
     L = f.params[0]
+    # a decoration recognised by a regular expression is recognised on the whole part, not on its beginning
+    for c_ in walk_own(f.node):
+        if isinstance(c_, ast.Call) and isinstance(c_.func, ast.Attribute) and c_.func.attr in ('match', 'search') and c_.args:
+            pat = None
+            if unparse(c_.func.value) == 're' and isinstance(c_.args[0], ast.Constant) and isinstance(c_.args[0].value, str):
+                pat = c_.args[0].value
+            else:
+                pat = _regex_of(prog, f, c_.func.value)
+            if pat is None:
+                continue
+            anch = _end_anchored(pat)
+            whole = any(isinstance(x_, ast.Attribute) and x_.attr in ('end', 'span', 'fullmatch') for x_ in walk_own(f.node)) \
+                or any(isinstance(x_, ast.Compare) and '.group(' in unparse(x_) for x_ in walk_own(f.node))
+            if anch is False and not whole:
+                obs.append(Ob('R-LABELSPLIT', f.fq, 'a decoration is recognised on the whole part of the label it is tested on',
+                              False, '`%s` with the pattern %r accepts a part that merely %s what the pattern describes (%s is not '
+                              'anchored at the end): of `NP-3SG` the index `3` is taken and the rest of the label text is lost'
+                              % (unparse(c_)[:50], pat, 'begins with' if c_.func.attr == 'match' else 'contains', c_.func.attr),
+                              construct='split-regex:' + pat, line=c_.lineno))
     rebinds = [n for n in cfg.eval_nodes() if n.kind == 'stmt' and isinstance(n.ast, ast.Assign)
                and len(n.ast.targets) == 1 and unparse(n.ast.targets[0]) == L]
     if len(rebinds) < 2:
@@ -701,7 +749,7 @@ def r_discoorder(prog, tier):
     t = f.params[0]
     rets = [n for n in cfg.eval_nodes() if n.kind == 'stmt' and isinstance(n.ast, ast.Return)]
     if not rets:
-        raise Unrecognised('disco_order has no return')
+        raise Unrecognised('disco_order has no return', partial=obs)
     def _is_children_list(e):
         if isinstance(e, ast.Call) and prog.callee(e, f) == ('trees', 'children'):
             return True
@@ -760,7 +808,7 @@ def r_edge(prog, tier):
                 if isinstance(sub, ast.Call) and prog.callee(sub, f) == ('trees', 'lca'):
                     calls.append((n, sub))
     if len(calls) != 1:
-        raise Unrecognised('root_attach: %d lca calls' % len(calls))
+        raise Unrecognised('root_attach: %d lca calls' % len(calls), partial=obs)
     n, call = calls[0]
     # every root child is looked at: the loop over the root children is left only by running out of children
     if n.loops:
@@ -793,7 +841,7 @@ def r_edge(prog, tier):
                 and unparse(a.slice.right) == '1' and isinstance(a.slice.left, ast.Name):
             idx.append((unparse(a.value), a.slice.left.id))
     if len(idx) != 2:
-        raise Unrecognised('root_attach: lca arguments are not <terminals>[t - 1]')
+        raise Unrecognised('root_attach: lca arguments are not <terminals>[t - 1]', partial=obs)
     terms = idx[0][0]
     td = [unparse(v) for (_, v) in name_defs(f, terms) if isinstance(v, ast.AST)]
     terms_ok = td == ['trees.terminals(%s)' % tree]
